@@ -36,6 +36,7 @@ ASSUMPTIONS = [
     "grid line or box boundary any one-sided value is the same constant, so it is demanded there too",
     "adaptive tables get dx = (high-low)/(npt-1) and base_point = low (and base_point=None where low=0)",
     "queries outside the box are not part of the alphabet",
+    "purity: low / high / npt and the query array are shared by all tables of a case and must be unchanged at its end",
 ]
 BOUNDS = {
     "quick": "d=1,2: 3 boxes x npt in {2,3,4}^d; d=3: 2 boxes x npt in {2,3}^3; query lattice (npt-1)*4+1 per axis",
@@ -278,6 +279,7 @@ def run_case(case) -> Outcome:
     stride = next(s for s in (7, 5, 3, 11, 13, 1) if np.gcd(s, ns) == 1)
     order3 = sub[(np.arange(ns) * stride + 1) % ns]
 
+    Q0, low0, high0, npt0 = Q.copy(), low.copy(), high.copy(), npt.copy()
     for fn in functions(d):
         exact = fn.val(Q)
         scale = max(1.0, float(np.abs(fn.val(corners)).max()))
@@ -291,7 +293,8 @@ def run_case(case) -> Outcome:
         S = None
         G: dict = {}
         try:
-            tab = InterpolationTable(low.copy(), high.copy(), npt.copy(), fn.call, dim=fn.dim)
+            # the same box arrays and the same query array are reused for every table (aliasing / purity)
+            tab = InterpolationTable(low, high, npt, fn.call, dim=fn.dim)
         except Exception as e:
             rec.violate("InterpolationTable constructor raised", function=fn.name, table="std", error=repr(e))
             out.ev("VIOLATION")
@@ -346,6 +349,9 @@ def run_case(case) -> Outcome:
                     _check(rec, tname, f"gradient{ax}", fn, Qo, po, no, (lambda x, ax=ax: A.gradient(x, ax)),
                            gexact[ax][:, order], tol_g, True, comps=lin_rows,
                            also=(G[ax][:, order], "standard") if ax in G else None)
+    if not (np.array_equal(Q, Q0) and np.array_equal(low, low0) and np.array_equal(high, high0) and np.array_equal(npt, npt0)):
+        out.violate("a table modified its box arrays or the array of query points", d=d, box=BOXES[case["box"]], npt=case["npt"])
+        out.ev("VIOLATION")
     if not out.samples:
         out.samples.append({"d": d, "low": low.tolist(), "high": high.tolist(), "npt": npt.tolist(),
                             "functions": [f.name for f in functions(d)], "query_points": int(Q.shape[1]),
